@@ -56,13 +56,13 @@ CLAIMED["C01"] = dict(
 CLAIMED["C02"] = dict(
    category="model_checking", design_ref="§3 C02",
    text="PqSampler.tla (extends PqOptics) models the chain-rule sampler of the passive simulator as a probabilistic state machine (reject-by-loss, uniform choice of the next particle, Laplace-expansion pmf, post-selection pruning, abort/accept); TLC pushes the exact distribution (weights in Q(sqrt2)) through every loop iteration and proves on every instance (d<=3, n<=3, all post-selection patterns, uniform loss 4/5 and 1/sqrt2) that the accepted law equals the Born law of the PqOptics reference state; the variant with the pre-fix loop is rejected by TLC (vacuity guard). The implementation's law is obtained EXACTLY, not statistically: the real simulator is run once per path of its RNG decision tree with a scripted generator and the probabilities it hands to the generator are multiplied (harness/sampler_paths.py); it must equal the exported law (acceptance probability, conditional law, second trial after an abort). The same enumeration against Born marginals of PqOptics states covers subset measurements (direct marginal sampler / projection) and non-uniform loss (doubled interferometer); probability maps handed to the categorical primitive by PureFock/Fock simulators are compared with the exact marginals; (mean, covariance, size) handed to multivariate_normal by homodyne/heterodyne/general-dyne are compared with PqGaussian's (<R>_M, (sigma_M+sigma_m)/2) for hbar in {1/2, 2, 8}; sample length = number of measured quantities.",
-   note="Not decided here (continuous intermediates, see DESIGN): weights of the Gaussian loop-hafnian chain, the torontonian chain and the inverse-CDF homodyne sampler in Fock space; partial distinguishability is covered only through the exact-law enumeration being normalised (no Gram-matrix reference yet).",
+   note="Not decided here (continuous intermediates, see DESIGN): weights of the Gaussian loop-hafnian chain, the torontonian chain and the inverse-CDF homodyne sampler in Fock space; samplers for partially distinguishable photons (uniform overlap, Gram matrix, with loss and post-selection) are compared with the law of PqDistinguish.tla.",
    technique="TLA+ probabilistic state machine of the sampler, law = Born proved by TLC per instance; exact implementation law by exhaustive enumeration of RNG decisions compared with the TLC-exported law",
    engine="PqSampler")
 CLAIMED["C05"] = dict(
    category="model_checking", design_ref="§3 C05",
    text="PqOptics.tla models loss as the unitary dilation (beamsplitter onto a fresh ancilla) and post-selection as projection; TLC checks NormIsOne, NormAtMostOne, ChainRule and SeqEqJoint on every reachable spec state and exports exact states. Replay on PassiveSimulator: get_particle_detection_probability, fock_probabilities_map, marginals on every mode subset, state_vector and norm against the marginal of the exact dilation (1e-9), and the dilation program itself on PureFockSimulator amplitude by amplitude.",
-   note="Partial distinguishability (Gram matrices) is not modelled yet; lattice transmissivities 3/5, 4/5, 1/sqrt2.",
+   note="Partial distinguishability by definition in PqDistinguish.tla (internal components as extra modes; uniform overlaps 16/25, 9/25, 1/2 and Gram matrices of Gaussian-integer vectors, with loss and post-selection); lattice transmissivities 3/5, 4/5, 1/sqrt2.",
    technique="exact TLA+ dilation semantics + TLC; behaviours replayed on PassiveSimulator and on the PureFock dilation",
    engine="PqOptics")
 CLAIMED["C08"] = dict(
